@@ -120,7 +120,14 @@ def headerSpecs : List RecSpec := [
   ⟨"TYPES2", "# / TYPES OF OBSERV", ⟨"num_obstypes", 0, 6⟩ :: ((List.range 9).map fun k => ⟨s!"type_{k + 1}", 10 + 6 * k, 12 + 6 * k⟩),
     R :: List.replicate 9 L⟩,
   -- 6X,9(4X,A2)
-  ⟨"TYPES2C", "# / TYPES OF OBSERV", (List.range 9).map fun k => ⟨s!"type_{k + 1}", 10 + 6 * k, 12 + 6 * k⟩, List.replicate 9 L⟩
+  ⟨"TYPES2C", "# / TYPES OF OBSERV", (List.range 9).map fun k => ⟨s!"type_{k + 1}", 10 + 6 * k, 12 + 6 * k⟩, List.replicate 9 L⟩,
+  -- the same three records with the repeated group of each column pair / list written as one cell (the text of the
+  -- group as printed, e.g. `C1C  -71.940`, `R01  5`, `G01 G02 G03`): 4(1X,A12), I3,1X,8(A7), A1,1X,A3,1X,F8.5,2X,I2.2,1X,A40
+  ⟨"GBIASP", "GLONASS COD/PHS/BIS", (List.range 4).map fun k => ⟨s!"type_0{k + 1}", 1 + 13 * k, 13 + 13 * k⟩, List.replicate 4 L⟩,
+  ⟨"GSLOTP", "GLONASS SLOT / FRQ #", ⟨"num_satellite", 0, 3⟩ :: ((List.range 8).map fun k => ⟨s!"slot_0{k + 1}", 4 + 7 * k, 11 + 7 * k⟩),
+    R :: List.replicate 8 L⟩,
+  ⟨"PSHIFTP", "SYS / PHASE SHIFT",
+    [⟨"sat_sys", 0, 1⟩, ⟨"obs_type", 2, 5⟩, ⟨"correction", 6, 14⟩, ⟨"num_satellite", 16, 18⟩, ⟨"satellites", 19, 59⟩], [L, L, R, R, L]⟩
 ]
 
 /-- RINEX 3 epoch record: `A1,1X,I4,4(1X,I2.2),F11.7,2X,I1,I3,6X,F15.12` -/
